@@ -22,6 +22,7 @@ RULE = (
     "graph, equal or different inputs, each with its own max_concurrency), map; interleaving of concurrent runs by seeded delays, hold-open release and "
     "ready-shuffle. Reference = the same operation executed alone on freshly compiled objects. Non-trivial = >=2 runs overlapped in simulated time or a "
     "mutating function ran in >=2 runs; distinct = digest of (program shape, history, interleaving)."
+    ' Also: defaults that are dicts holding a mutable value, part of the inputs passed as keyword arguments, structurally identical graphs with different entry-point configuration on shared runners, a mapping node whose inner graph binds an object (clone True/False/list).'
 )
 ASSUMPTIONS = ["node functions mutate only their default-valued arguments; bound and provided objects are only read"]
 
